@@ -183,7 +183,7 @@ func c17(c *Ctx) {
 	var cases []Case
 	// DefaultNewNick on every last byte
 	for b := 0; b < 256; b++ {
-		for _, pre := range []string{"", "a", "ab\xff", "nick"} {
+		for _, pre := range []string{"", "a", "ab\xff", "nick", "bot1", "u9", "a10", "Guest499", "z", "Z", "}", "9z"} { // the bytes in front of the last one are none of the generator's business, whatever they are
 			old := pre + string([]byte{byte(b)})
 			got := client.DefaultNewNick(old)
 			cs := Case{Desc: fmt.Sprintf("DefaultNewNick(%q)", old), Reqs: []string{"newnick default " + drv.H(old)}, Impl: []string{drv.H(got)}, Tag: "gen", Key: old,
